@@ -55,6 +55,11 @@ STATUS_INT_CALLS = {"libc::unix::linux_like::linux::ioctl"}
 # Option<Error>-returning APIs
 OPTION_ERR_CALLS = {"ignore::gitignore::GitignoreBuilder::add"}
 
+# Iterator methods that consume or skip items without handing them to user code
+_I = "core::iter::traits::iterator::Iterator::"
+SWALLOWING_ADAPTORS = {_I + "flatten", _I + "count", _I + "last", _I + "nth", _I + "skip", _I + "step_by",
+                       _I + "skip_while", _I + "take_while", _I + "flat_map|identity"}
+
 SEND = "libxcp::feedback::StatusUpdater::send"
 STATUS_UPDATE = "libxcp::feedback::StatusUpdate"
 
@@ -443,6 +448,28 @@ def run(fx, crates=None, cfgname="A"):
                         None if ok else dict(classes=[dict(cls=c.cls, detail=c.detail, witness=c.witness)
                                                       for c in cl]), cfg=cfgname)
                 ob.shape = _shape(cl)
+                obs.append(ob)
+    # iterator adaptors that drop or skip items unseen, over an iterator of Results
+    counters2 = {}
+    for path in sorted(fx.fns):
+        f = fx.fns[path]
+        if crates and f.crate not in crates:
+            continue
+        if not in_scope_fn(fx, f):
+            continue
+        for bi, t in f.calls():
+            if span_excluded(t["span"]):
+                continue
+            o = callee_orig(t) or ""
+            it = (t.get("fn") or {}).get("iter_item", "")
+            if o in SWALLOWING_ADAPTORS and RESULT_RE.match(it) and not it.endswith("core::fmt::Error>"):
+                n = counters2.get((f.path, o), 0)
+                counters2[(f.path, o)] = n + 1
+                ob = Ob("R-ERR", mkkey("R-ERR", f.path, o, n, "adaptor"), False,
+                        "%s:%d" % (t["span"]["file"], t["span"]["line"]), f.path,
+                        "%s over an iterator of %s -> DISCARDED: Err items are dropped without being looked at"
+                        % (o.split("::")[-1], it.split("<")[0].split("::")[-1]), dict(callee=o, item=it), cfg=cfgname)
+                ob.shape = "discarded"
                 obs.append(ob)
     # second Result layers: Continue payload of a `?` that is itself a Result (JoinHandle::join()??)
     obs.extend(_nested_layers(fx, crates, cfgname))
